@@ -275,3 +275,98 @@ def sgpr_trace_term(c):
     want = z3.RealVal("-1/2") * mk_sum(lambda k: dom_real.rdiv(c.ctx, Kp.at([k, k]) - Kq.at([k, k]), noise.at([k])), n.t)
     c.prove("trace_term.noise_requested_for_the_data_shape", z3.BoolVal(len(calls) == 1))
     c.prove("trace_term.value", res.at_dims([]) == want if isinstance(res, VTensor) and len(res.dims) == 0 else z3.BoolVal(False))
+
+
+def ipk_with_populated_caches(c):
+    """an InducingPointKernel in evaluation mode whose caches were filled by the REAL getters (name-agnostic: the cache attributes are whatever
+    `_inducing_inv_root` / `_inducing_mat` added to the object)"""
+    it, ctx = c.it, c.ctx
+    mz, d = c.size("m"), c.size("d")
+    c.assume(mz.t >= 1)
+    Z = sym_tensor("Z", [mz.t, d.t])
+    rec = {"chol": 0, "base": 0}
+    Kzz = sym_tensor("Kzz", [mz.t, mz.t])
+    base = Stub("base_kernel", methods={"__call__": lambda *a, **k: (rec.__setitem__("base", rec["base"] + 1), Kzz)[1]}, isa=("Kernel", "Module"))
+    o = module_obj(c, IPK, "kernel", training=FALSE)
+    o.fields["_modules"].d["base_kernel"] = base
+    o.fields["_parameters"].d["inducing_points"] = Z
+    o.fields["_added_loss_terms"].d["inducing_point_loss_term"] = NONE
+    U, R = sym_tensor("U_chol_upper", [mz.t, mz.t]), sym_tensor("R_inverse_root", [mz.t, mz.t])
+    it.optable["linear_operator.utils.cholesky.psd_safe_cholesky"] = lambda it_, ctx_, a, k: (rec.__setitem__("chol", rec["chol"] + 1), U)[1]
+    it.optable["torch.linalg.solve_triangular"] = lambda it_, ctx_, a, k: R
+    before = set(o.fields)
+    first = c.getattr(o, "_inducing_inv_root")
+    added = set(o.fields) - before
+    return o, rec, first, added
+
+
+@case("C09", clause="nystrom_cache_lifecycle", name="inducing_point_cache_lifecycle", expand=lambda ix: [(op,) for op in ("hit", "_clear_cache", "train", "load_state_dict")], replay=lambda *a: replay_ipk_lifecycle(*a),
+      functions=[f"{IPK}._inducing_inv_root", f"{IPK}._inducing_mat", f"{IPK}._clear_cache", "gpytorch.module.Module.train", "gpytorch.module.Module._load_from_state_dict"])
+def inducing_point_cache_lifecycle(c, op):
+    """'equals the Nystrom matrix' must survive a change of hyperparameters / inducing points: everything the evaluation-mode getters cache on the kernel
+    (whatever the attributes are called) is served again unchanged while nothing changes (hit) and is gone after _clear_cache(), train() and a state-dict load"""
+    it, ctx = c.it, c.ctx
+    o, rec, first, added = ipk_with_populated_caches(c)
+    if added:
+        c.cover("ipk_cache.getters_cached_something")  # with no caching at all nothing can go stale and the clauses below hold trivially
+    if op == "hit":
+        n_ch, n_b = rec["chol"], rec["base"]
+        again = c.getattr(o, "_inducing_inv_root")
+        c.prove("ipk_cache.second_read_is_served_from_the_cache", z3.BoolVal(again is first and rec["chol"] == n_ch and rec["base"] == n_b))
+        return
+    if op == "_clear_cache":
+        it.call(ctx, c.getattr(o, "_clear_cache"), [], {})
+    elif op == "train":
+        it.optable["torch.nn.Module.train"] = lambda it_, ctx_, a, k: a[0]
+        it.call(ctx, c.getattr(o, "train"), [], {})
+    else:
+        it.optable["torch.nn.Module._load_from_state_dict"] = lambda it_, ctx_, a, k: NONE
+        it.call(ctx, c.getattr(o, "_load_from_state_dict"), [VDict({}), VStr("prefix."), VDict({}), TRUE, VList([]), VList([]), VList([])], {})
+    left = sorted(a for a in added if a in o.fields)
+    c.prove(f"ipk_cache.{op}.drops_everything_the_getters_cached", z3.BoolVal(not left), still_cached=left)
+
+
+def replay_ipk_lifecycle(model, params, clause, info):
+    """real InducingPointKernel: evaluate in evaluation mode (fills the caches), change a hyperparameter through the operation of the case, evaluate again and
+    compare with the dense Nystrom matrix of the NEW hyperparameters"""
+    import torch
+    import gpytorch
+    (op,) = params
+    torch.manual_seed(5)
+    X, Z = torch.rand(6, 2, dtype=torch.double), torch.rand(3, 2, dtype=torch.double)
+    lik = gpytorch.likelihoods.GaussianLikelihood().double()
+    k = gpytorch.kernels.InducingPointKernel(gpytorch.kernels.RBFKernel().double(), inducing_points=Z.clone(), likelihood=lik).double()
+    k.base_kernel.lengthscale = 0.7
+
+    def dense():
+        with torch.no_grad():
+            Kxz = k.base_kernel(X, k.inducing_points).to_dense()
+            Kzz = k.base_kernel(k.inducing_points, k.inducing_points).to_dense()
+            return Kxz @ torch.linalg.solve(Kzz, Kxz.T)
+
+    k.eval()
+    with torch.no_grad(), gpytorch.settings.sgpr_diagonal_correction(False):
+        first = k(X, X).to_dense()
+        ok0 = torch.allclose(first, dense(), atol=1e-7)
+        if op == "hit":
+            again = k(X, X).to_dense()
+            bad = not (ok0 and torch.allclose(again, first, atol=1e-12))
+            return {"violates": bool(bad), "detail": f"two evaluation-mode reads agree: {not bad}",
+                    "entry": {"module": "contracts.C09_structured", "function": "replay_ipk_lifecycle", "args": [model, list(params), clause, info]}}
+        if op == "_clear_cache":
+            k.base_kernel.lengthscale = 0.25
+            k._clear_cache()
+        elif op == "train":
+            k.train()
+            k.base_kernel.lengthscale = 0.25
+            k.eval()
+        else:
+            # a state dict holding lengthscale 0.25: loading it must drop what was cached for 0.7
+            sd = {kk: v.clone() for kk, v in k.state_dict().items()}
+            sd["base_kernel.raw_lengthscale"] = gpytorch.constraints.Positive().inverse_transform(torch.tensor([[0.25]], dtype=torch.double))
+            k.load_state_dict(sd)
+        second = k(X, X).to_dense()
+        want = dense()
+        bad = not (ok0 and torch.allclose(second, want, atol=1e-7))
+    return {"violates": bool(bad), "detail": f"after {op} with a changed lengthscale: max |k - Nystrom(new hyperparameters)| = {(second - want).abs().max().item():.3e}",
+            "entry": {"module": "contracts.C09_structured", "function": "replay_ipk_lifecycle", "args": [model, list(params), clause, info]}}
